@@ -557,3 +557,201 @@ Proof.
   - exact Hex.
 Qed.
 End Final3.
+
+(* ================= optimizeAlternatingSimpleContains ================= *)
+Section Oasc.
+Variable F : rune -> rune -> bool.
+Variable NL TL : bytes -> bytes.
+Notation ML := (ML F).
+
+Definition wrap (b : re) : re := RConcat [RStar RAny; b; RStar RAny].
+
+Lemma scl_some x b : simple_contains_lit x = Some b -> x = wrap b /\ is_cs_literal b = true.
+Proof.
+  unfold simple_contains_lit. destruct x; try discriminate.
+  destruct l as [| a [| b' [| c [| ? ?]]]]; try discriminate.
+  destruct (is_cs_literal b') eqn:Eb; simpl; [| discriminate].
+  destruct (is_match_any a) eqn:Ea; simpl; [| discriminate].
+  destruct (is_match_any c) eqn:Ec; simpl; [| discriminate].
+  intros H. inversion H; subst. apply is_match_any_eq in Ea. apply is_match_any_eq in Ec. subst.
+  split; auto.
+Qed.
+
+Lemma all_some_scl : forall l lits, all_some (map simple_contains_lit l) = Some lits ->
+  l = map wrap lits /\ Forall (fun b => is_cs_literal b = true) lits.
+Proof.
+  induction l as [| x l IH]; intros lits H; simpl in H.
+  - inversion H; subst. split; constructor.
+  - destruct (simple_contains_lit x) as [b |] eqn:Ex; [| discriminate].
+    destruct (all_some (map simple_contains_lit l)) as [lits' |] eqn:El; [| discriminate].
+    inversion H; subst. destruct (scl_some _ _ Ex) as [-> Hb]. destruct (IH lits' eq_refl) as [-> Hl].
+    split; [reflexivity | constructor; auto].
+Qed.
+
+Lemma wrap_sem b0 e0 x s : (forall b e b' e' t, ML b e x t -> ML b' e' x t) ->
+  (ML b0 e0 (wrap x) s <-> exists s1 s2 s3, s = s1 ++ s2 ++ s3 /\ ML true true x s2).
+Proof.
+  intros Hind. unfold wrap. rewrite ML_concat_cons. split.
+  - intros (s1 & s' & -> & _ & H2). apply ML_concat_cons in H2.
+    destruct H2 as (s2 & s3 & -> & H2 & _). exists s1, s2, s3. split; auto. eapply Hind; eauto.
+  - intros (s1 & s2 & s3 & -> & H2). exists s1, (s2 ++ s3). split; auto. split; [apply ML_star_any |].
+    apply ML_concat_cons. exists s2, s3. split; auto. split; [eapply Hind; eauto |].
+    apply ML_concat_single. apply ML_star_any.
+Qed.
+
+Lemma lit_indep x : is_cs_literal x = true -> forall b e b' e' t, ML b e x t -> ML b' e' x t.
+Proof.
+  intros H. destruct (is_cs_literal_eq _ H) as (rs & ->). intros b e b' e' t Ht.
+  apply ML_lit in Ht. now apply ML_lit.
+Qed.
+
+Lemma alt_lits_indep lits : Forall (fun b => is_cs_literal b = true) lits ->
+  forall b e b' e' t, ML b e (RAlt lits) t -> ML b' e' (RAlt lits) t.
+Proof.
+  induction 1 as [| x l Hx _ IH]; intros b e b' e' t Ht.
+  - apply ML_alt_nil in Ht. destruct Ht.
+  - apply ML_alt_cons in Ht. apply ML_alt_cons. destruct Ht as [Ht | Ht].
+    + left. eapply lit_indep; eauto.
+    + right. eapply IH; eauto.
+Qed.
+
+Lemma alt_wrap_sem : forall lits, Forall (fun b => is_cs_literal b = true) lits ->
+  forall b e s, ML b e (RAlt (map wrap lits)) s <-> ML b e (wrap (RAlt lits)) s.
+Proof.
+  intros lits Hl b e s. rewrite (wrap_sem b e (RAlt lits) s (alt_lits_indep lits Hl)).
+  induction Hl as [| x l Hx Hl IH].
+  - simpl. rewrite ML_alt_nil. split; [tauto |]. intros (s1 & s2 & s3 & _ & H). now apply ML_alt_nil in H.
+  - cbn [map]. rewrite ML_alt_cons, IH, (wrap_sem b e x s (lit_indep x Hx)). split.
+    + intros [(s1 & s2 & s3 & -> & H) | (s1 & s2 & s3 & -> & H)]; exists s1, s2, s3; split; auto;
+        apply ML_alt_cons; auto.
+    + intros (s1 & s2 & s3 & -> & H). apply ML_alt_cons in H. destruct H as [H | H]; [left | right]; eauto 6.
+Qed.
+
+Theorem oasc_sem r s : Matches F (optimize_alt_simple_contains r) s <-> Matches F r s.
+Proof.
+  unfold optimize_alt_simple_contains. destruct r; try reflexivity.
+  destruct (all_some (map simple_contains_lit l)) as [lits |] eqn:E; [| reflexivity].
+  destruct (1 <? len lits); [| reflexivity].
+  destruct (all_some_scl _ _ E) as [-> Hl]. symmetry. apply (alt_wrap_sem lits Hl true true s).
+Qed.
+
+Lemma oasc_wf r : wf_csb r = true -> wf_csb (optimize_alt_simple_contains r) = true.
+Proof.
+  unfold optimize_alt_simple_contains. destruct r; auto.
+  destruct (all_some (map simple_contains_lit l)) as [lits |] eqn:E; auto.
+  destruct (1 <? len lits); auto.
+  destruct (all_some_scl _ _ E) as [-> Hl]. simpl. intros H. rewrite andb_true_r.
+  clear E Hl. induction lits as [| b lits IH]; simpl in *; auto.
+  apply andb_true_iff in H. destruct H as [Hb H]. rewrite andb_true_r in Hb. rewrite Hb. simpl. now apply IH.
+Qed.
+
+Lemma oasc_idem r : optimize_alt_simple_contains (optimize_alt_simple_contains r) = optimize_alt_simple_contains r.
+Proof.
+  destruct r; try reflexivity.
+  remember (optimize_alt_simple_contains (RAlt l)) as q eqn:Eq.
+  unfold optimize_alt_simple_contains in Eq.
+  destruct (all_some (map simple_contains_lit l)) as [lits |] eqn:E.
+  - destruct (1 <? len lits) eqn:E1; subst q; [reflexivity |].
+    unfold optimize_alt_simple_contains. now rewrite E, E1.
+  - subst q. unfold optimize_alt_simple_contains. now rewrite E.
+Qed.
+
+Theorem new_frm_correct_full pat ast s :
+  wf_csb ast = true ->
+  optimize_alternating_literals NL pat = None ->
+  match_string F NL (new_frm NL TL pat ast) s = true <-> Matches F ast s.
+Proof.
+  intros Hwf Hopt.
+  assert (E : new_frm NL TL pat ast = new_frm NL TL pat (optimize_alt_simple_contains ast)).
+  { unfold new_frm, new_frm_gen. rewrite Hopt, oasc_idem. reflexivity. }
+  rewrite E, <- (oasc_sem ast s).
+  apply new_frm_correct; auto; [now apply oasc_wf | apply oasc_idem].
+Qed.
+End Oasc.
+
+(* ================= SetMatches of the parsed path; the alternating-literals fast path ======== *)
+Section Sets.
+Variable F : rune -> rune -> bool.
+Variable NL TL : bytes -> bytes.
+
+Theorem new_frm_set_exact pat ast :
+  optimize_alternating_literals NL pat = None ->
+  set_matches (new_frm NL TL pat ast) <> [] ->
+  forall s, Matches F ast s <-> In s (set_matches (new_frm NL TL pat ast)).
+Proof.
+  intros Hopt.
+  assert (E : exists p3, (forall s, Matches F p3 s <-> Matches F ast s) /\
+              set_matches (new_frm NL TL pat ast) =
+              (let '(m, cs) := find_set_matches p3 in if cs then m else [])).
+  { unfold new_frm, new_frm_gen, set_matches. rewrite Hopt.
+    pose proof (fun s => Matches_strip F (optimize_alt_simple_contains ast) s) as H2.
+    destruct (strip (optimize_alt_simple_contains ast)) as [ | f | f rs | f rg | | | | | r | r | r | r | mn mx r | l | l ] eqn:Ep2;
+      cbv beta iota zeta;
+      try (match type of Ep2 with
+           | _ = ?P => exists P; split;
+                       [intros s; rewrite H2; apply (oasc_sem F NL TL)
+                       | destruct (find_set_matches P); reflexivity]
+           end).
+    exists (RConcat (map strip l)). split.
+    - intros s. rewrite Matches_map_strip, H2. apply (oasc_sem F NL TL).
+    - destruct (optimize_concat l) as [[[? ?] ?] ?].
+      destruct (find_set_matches (RConcat (map strip l))). reflexivity. }
+  destruct E as (p3 & Hsem & ->). unfold find_set_matches.
+  destruct (fsm (clear_begin_end p3) []) as [ms cs] eqn:Ef. destruct cs; [| congruence].
+  intros Hne s. rewrite <- Hsem, <- (cbe_sem F p3 s). now apply fsm_top_exact.
+Qed.
+
+(* the text-level fast path *)
+Lemma nodup_str_In x : forall l, In x (nodup_str l) <-> In x l.
+Proof.
+  induction l as [| a l IH]; simpl; [tauto |].
+  destruct (mem_str a l) eqn:E.
+  - rewrite IH. split; auto. intros [<- | H]; auto. now apply mem_str_In.
+  - simpl. rewrite IH. tauto.
+Qed.
+
+Lemma split_bar_nobar : forall s cur, existsb (fun c => c =? 124) s = false -> split_bar s cur = [rev cur ++ s].
+Proof.
+  induction s as [| c s IH]; intros cur H; simpl.
+  - now rewrite app_nil_r.
+  - simpl in H. apply orb_false_iff in H. destruct H as [Hc Hs]. rewrite Hc, (IH _ Hs). simpl.
+    now rewrite <- app_assoc.
+Qed.
+
+Lemma split_bar_nonempty : forall s cur, split_bar s cur <> [].
+Proof.
+  induction s as [| c s IH]; intros cur; simpl; [discriminate |].
+  destruct (c =? 124); [discriminate | apply IH].
+Qed.
+
+Lemma split_bar_len1 : forall s cur, len (split_bar s cur) = 1 -> existsb (fun c => c =? 124) s = false.
+Proof.
+  induction s as [| c s IH]; intros cur H; simpl in *; auto.
+  destruct (c =? 124) eqn:Ec; simpl.
+  - exfalso. pose proof (split_bar_nonempty s []) as Hn. unfold len in H. simpl in H.
+    destruct (split_bar s []); [congruence | simpl in H; lia].
+  - eapply IH; eauto.
+Qed.
+
+Theorem altlit_correct pat m set :
+  optimize_alternating_literals NL pat = Some (m, set) ->
+  (forall s, smm F NL m s = true <-> In s (split_bar pat [])) /\
+  (set <> [] -> forall s, In s set <-> In s (split_bar pat [])).
+Proof.
+  unfold optimize_alternating_literals. destruct (isnil pat) eqn:En.
+  - destruct pat; [| discriminate]. intros H. inversion H; subst. split; [| congruence].
+    intros s. simpl. destruct s; simpl; split; intros H0; auto; try discriminate.
+    destruct H0 as [H0 | []]. discriminate.
+  - destruct (len (split_bar pat []) =? 1) eqn:E1.
+    + destruct (literal_str pat); [| discriminate]. intros H. inversion H; subst.
+      apply Z.eqb_eq in E1. apply split_bar_len1 in E1. rewrite (split_bar_nobar pat [] E1). simpl.
+      split; [| intros _]; intros s; cbn [FastRegex.smm]; rewrite ?str_eqb_eq; simpl; intuition congruence.
+    + destruct (forallb literal_str (split_bar pat [])); [| discriminate]. intros H. inversion H; subst.
+      split; [intros s; apply (new_multi_cs_sem F NL TL) |].
+      unfold new_multi. destruct (len (split_bar pat []) <? min_equal_multi_threshold).
+      * simpl. tauto.
+      * cbn [multi_set_matches isnil negb].
+        destruct (max_set_matches <=? len (nodup_str (split_bar pat []))); cbn [orb]; [congruence |].
+        intros _ s0. apply nodup_str_In.
+Qed.
+End Sets.
